@@ -126,6 +126,14 @@ def check_win_table(base, recursive):
         ([(A["REMOVED"], "gone")], [E.FileDeletedEvent(j("gone"))]),
         ([(A["SELF"], "")], [E.DirDeletedEvent(base)]),
     ]
+    # a buffer with several records = the records one after the other (nothing remembered from an earlier record of the
+    # batch may swallow a later one, e.g. an entry that is removed and created again inside one buffer)
+    singles = {}
+    for rec in [(A["ADDED"], "d"), (A["ADDED"], "d/y"), (A["REMOVED"], "d/y"), (A["MODIFIED"], "d/y"), (A["ADDED"], "f"), (A["REMOVED"], "f"), (A["ADDED"], "d/sub"), (A["REMOVED"], "d/sub/x"), (A["ADDED"], "d/sub/x")]:
+        singles[rec] = win_batch(base, [rec], recursive)[0]
+    for batch in ([(A["ADDED"], "d"), (A["ADDED"], "d/y"), (A["REMOVED"], "d/y"), (A["ADDED"], "d/y")], [(A["ADDED"], "f"), (A["REMOVED"], "f"), (A["ADDED"], "f")],
+                  [(A["ADDED"], "d"), (A["MODIFIED"], "d/y"), (A["ADDED"], "d/sub"), (A["REMOVED"], "d/sub/x"), (A["ADDED"], "d/sub/x")]):
+        cases.append((batch, [e for rec in batch for e in singles[rec]]))
     for batch, want in cases:
         got, stopped = win_batch(base, batch, recursive)
         if got != want:
